@@ -237,6 +237,21 @@ def invalid(jp, rec, R, spec):
         for t, _ in chunk:
             rec.case(t, True)
         rec.feat("surrogate-pairs-valid", len(chunk))
+    # escaped backslash directly followed by a letter that would itself be an escape, no \\u anywhere in the literal
+    battery = []
+    for q in "'\"":
+        for letter in "bfnrtu/0x" + q:
+            for pre, post in (("", ""), ("x", "y"), ("\\n", "\\t"), ("\\\\", "\\\\")):
+                body = pre + "\\\\" + (("\\" + letter) if letter == q else letter) + post
+                dec = (pre.replace("\\n", "\n").replace("\\\\", "\\") + "\\" + letter + post.replace("\\t", "\t").replace("\\\\", "\\"))
+                battery.append((q + body + q, dec))
+    for i in range(0, len(battery), 16):
+        chunk = battery[i:i + 16]
+        report(rec, batch_names(jp, rec, chunk))
+        report(rec, batch_compare(jp, rec, chunk))
+        for t, _ in chunk:
+            rec.case(t, True)
+        rec.feat("escaped-backslash-battery", len(chunk))
     for cls, t in cases:
         for tmpl in ("$[%s]", "$[?@ == %s]", "$[?match(@, %s)]", "$[0, %s]"):
             query = tmpl % t
